@@ -49,6 +49,9 @@ pub enum Op {
     ApplyNamedStyle { area: AreaS, name: String },
     AddCf { sheet: u32, range: String, json: String },
     DeleteCf { sheet: u32, index: u32 },
+    UpdateCf { sheet: u32, index: u32, range: String, json: String },
+    CfPriority { sheet: u32, index: u32, raise: bool },
+    Theme(usize),
     AutoFillRows { area: AreaS, to: i32 },
     AutoFillCols { area: AreaS, to: i32 },
     CopyPaste { src: AreaS, dst_sheet: u32, dst_row: i32, dst_col: i32, cut: bool },
@@ -82,7 +85,8 @@ pub fn kind(op: &Op) -> &'static str {
         Op::SetLink { .. } => "set_cell_link", Op::DeleteLink { .. } => "delete_cell_link",
         Op::CreateNamedStyle { .. } => "create_named_style", Op::DeleteNamedStyle(_) => "delete_named_style", Op::UpdateNamedStyle { .. } => "update_named_style",
         Op::ApplyNamedStyle { .. } => "apply_named_style", Op::AddCf { .. } => "add_conditional_formatting",
-        Op::DeleteCf { .. } => "delete_conditional_formatting", Op::AutoFillRows { .. } => "auto_fill_rows",
+        Op::DeleteCf { .. } => "delete_conditional_formatting", Op::UpdateCf { .. } => "update_conditional_formatting",
+        Op::CfPriority { .. } => "conditional_formatting_priority", Op::Theme(_) => "set_theme", Op::AutoFillRows { .. } => "auto_fill_rows",
         Op::AutoFillCols { .. } => "auto_fill_columns", Op::CopyPaste { cut: false, .. } => "copy_paste",
         Op::CopyPaste { cut: true, .. } => "cut_paste", Op::PasteCsv { .. } => "paste_csv", Op::Undo => "undo", Op::Redo => "redo",
     }
@@ -158,6 +162,16 @@ pub fn apply_op(m: &mut UserModel, op: &Op) -> Result<(), String> {
             m.add_conditional_formatting(*sheet, range, r)
         }
         Op::DeleteCf { sheet, index } => m.delete_conditional_formatting(*sheet, *index),
+        Op::UpdateCf { sheet, index, range, json } => {
+            let r: CfRuleInput = serde_json::from_str(json).map_err(|e| e.to_string())?;
+            m.update_conditional_formatting(*sheet, *index, range, r)
+        }
+        Op::CfPriority { sheet, index, raise } => if *raise { m.raise_conditional_formatting_priority(*sheet, *index) } else { m.lower_conditional_formatting_priority(*sheet, *index) },
+        Op::Theme(i) => {
+            let themes = ironcalc_base::themes::builtin_themes();
+            m.set_theme(themes[*i % themes.len()].clone());
+            Ok(())
+        }
         Op::AutoFillRows { area, to } => m.auto_fill_rows(&area.area(), *to),
         Op::AutoFillCols { area, to } => m.auto_fill_columns(&area.area(), *to),
         Op::CopyPaste { src, dst_sheet, dst_row, dst_col, cut } => {
@@ -254,7 +268,10 @@ pub fn gen_op(rng: &mut Rng, ctx: &GenCtx, allow_undo_redo: bool) -> Op {
                 "{\"type\":\"CellIs\",\"operator\":\"GreaterThan\",\"formula\":\"1\",\"formula2\":null,\"format\":{\"font\":null,\"fill\":null,\"border\":null,\"num_fmt\":null,\"alignment\":null},\"stop_if_true\":false}",
                 "{\"type\":\"Formula\",\"formula\":\"A1>2\",\"format\":{\"font\":null,\"fill\":null,\"border\":null,\"num_fmt\":null,\"alignment\":null},\"stop_if_true\":true}",
                 "{\"type\":\"Blanks\",\"format\":{\"font\":null,\"fill\":null,\"border\":null,\"num_fmt\":null,\"alignment\":null},\"stop_if_true\":false}"]).to_string() } }
-              else { Op::DeleteCf { sheet, index: 0 } },
+              else { match rng.below(4) { 0 => Op::DeleteCf { sheet, index: 0 },
+                  1 => Op::UpdateCf { sheet, index: 0, range: rng.pick(&["A2:A7", "B1:C3"]).to_string(), json: "{\"type\":\"Blanks\",\"format\":{\"font\":null,\"fill\":null,\"border\":null,\"num_fmt\":null,\"alignment\":null},\"stop_if_true\":true}".to_string() },
+                  2 => Op::CfPriority { sheet, index: rng.below(2) as u32, raise: rng.chance(1, 2) },
+                  _ => Op::Theme(rng.below(5) as usize) } },
         98 => if rng.chance(1, 2) { Op::AutoFillRows { area: area(rng, sheet), to: rng.range(2, 14) as i32 } } else { Op::AutoFillCols { area: area(rng, sheet), to: rng.range(2, 9) as i32 } },
         99 => if rng.chance(2, 3) { let (r, c) = rc(rng); Op::CopyPaste { src: area(rng, sheet), dst_sheet: rng.below(ns as u64) as u32, dst_row: r.min(14), dst_col: c.min(9), cut: rng.chance(1, 2) } }
               else { Op::PasteCsv { area: area(rng, sheet), csv: "1,2\n3,x\n".into() } },
